@@ -30,6 +30,16 @@ pub enum Layer {
     /// CRAM: one integer parameter of a compression header (encoding maps), slice header or block header set to a
     /// hostile value on the parsed model (raw-block form where available), everything enclosing re-serialised
     CramStruct,
+    /// BCF: a typed-value descriptor byte (length nibble, type nibble) of the inflated / raw stream set to every
+    /// combination of length {0, 1, 2, 15} x type {0, 1, 2, 3, 5, 7}; re-sealed for the BGZF-wrapped kind
+    BcfTyped,
+}
+
+pub const BCF_LENS: [u8; 4] = [0, 1, 2, 15];
+pub const BCF_TYPES: [u8; 6] = [0, 1, 2, 3, 5, 7];
+
+pub fn bcf_descriptor(which: usize) -> u8 {
+    (BCF_LENS[(which / BCF_TYPES.len()) % BCF_LENS.len()] << 4) | BCF_TYPES[which % BCF_TYPES.len()]
 }
 
 impl Layer {
@@ -40,11 +50,12 @@ impl Layer {
             Layer::CramSealed => "cram-crc-resealed",
             Layer::CramRawSealed => "cram-rawblocks-crc-resealed",
             Layer::CramStruct => "cram-structured-parameter-resealed",
+            Layer::BcfTyped => "bcf-typed-descriptor",
         }
     }
 
     pub fn from_name(s: &str) -> Option<Layer> {
-        [Layer::Outer, Layer::Inflated, Layer::CramSealed, Layer::CramRawSealed, Layer::CramStruct].into_iter().find(|l| l.name() == s)
+        [Layer::Outer, Layer::Inflated, Layer::CramSealed, Layer::CramRawSealed, Layer::CramStruct, Layer::BcfTyped].into_iter().find(|l| l.name() == s)
     }
 }
 
